@@ -188,6 +188,12 @@ def run_traced(build, cwd, srcs, kinds, outs, refs=None, kind_args=None, extra_a
                 size = len(data)
                 if refs is None or refs.get((f, k)) == data:
                     st = "complete"
+                elif k == "java" and refs.get((f, k)) is not None and \
+                        sorted(refs[(f, k)].splitlines()) == sorted(data.splitlines()):
+                    # the Java back end emits local declarations in an order that varies from run to run
+                    # (seen on identical command lines; property C08's business): same lines = complete
+                    st = "complete"
+                    r.label["java_line_order_differs"] = True
                 else:
                     st = "partial"
         except OSError:
@@ -220,19 +226,6 @@ class Verdict(object):
         return "ok" if self.ok else "%s:%s at #%s %s" % (self.how, self.name, self.at, json.dumps(self.event)[:120])
 
 
-def _tlc_once(runs, workdir, tag, timeout):
-    path = os.path.join(workdir, "trace-%s.ndjson" % tag)
-    evs = []
-    starts = []
-    for r in runs:
-        starts.append(len(evs) + 1)          # 1-based index of the run's Reset
-        evs.extend(r.events)
-    vlib.write_ndjson(path, evs)
-    res = vlib.tlc("TraceDriver", "TraceDriver", workers=1, env={"TRACE": path}, timeout=timeout, xss="64m", xmx="1g")
-    os.unlink(path)
-    return res, evs, starts
-
-
 def _which_run(starts, idx):
     j = 0
     for i, s in enumerate(starts):
@@ -242,52 +235,51 @@ def _which_run(starts, idx):
 
 
 def validate_chunk(runs, workdir, tag, stats, timeout=300):
-    """Validate `runs` (in order) and return a Verdict per run.  After a rejected run the
-    remaining ones are validated in a fresh TLC process."""
-    verdicts = [None] * len(runs)
-    first = 0
-    n = 0
-    while first < len(runs):
-        res, evs, starts = _tlc_once(runs[first:], workdir, "%s-%d" % (tag, n), timeout)
-        n += 1
-        with _lock:
-            stats["tlc_runs"] += 1
-            stats["states"] += res.distinct
-            stats["generated"] += res.states
-            stats["wall"] += res.wall
-        out = res.out
-        stuck = re.search(r'<<"STUCK", (\d+)>>', out)
-        inv = re.search(r"Error: Invariant (\S+) is violated", out)
-        if inv:
-            ls = re.findall(r"^/\\ l = (\d+)", out, re.M)
-            if not ls:
-                raise vlib.MachineryError("TLC reported %s without a trace:\n%s" % (inv.group(1), out[-2000:]))
-            idx = int(ls[-1]) - 1           # the event whose step produced the violating state
-            j = _which_run(starts, idx)
-            for i in range(j):
-                verdicts[first + i] = Verdict(True)
-            k = idx - starts[j]
-            verdicts[first + j] = Verdict(False, "invariant", inv.group(1), k, evs[idx - 1],
-                                          evs[idx - 2] if idx >= 2 else None, res.trace_text)
-            first = first + j + 1
-        elif stuck:
-            idx = int(stuck.group(1))       # index of the event no Driver action matched
-            if idx > len(evs):
-                raise vlib.MachineryError("TLC: STUCK beyond the trace")
-            j = _which_run(starts, idx)
-            for i in range(j):
-                verdicts[first + i] = Verdict(True)
-            k = idx - starts[j]
-            verdicts[first + j] = Verdict(False, "stuck", "Accepted", k, evs[idx - 1], evs[idx - 2] if idx >= 2 else None,
-                                          "no Driver action matches event %d of the run: %s\nafter: %s" %
-                                          (k, json.dumps(evs[idx - 1]), json.dumps(evs[idx - 2] if idx >= 2 else None)))
-            first = first + j + 1
-        elif res.error or res.rc != 0:
-            raise vlib.MachineryError("TLC trace validation failed: %s" % (res.error or out[-2000:]))
-        else:
-            for i in range(first, len(runs)):
-                verdicts[i] = Verdict(True)
-            first = len(runs)
+    """Validate `runs` with one TLC process (-continue) and return a Verdict per run."""
+    path = os.path.join(workdir, "trace-%s.ndjson" % tag)
+    evs, starts = [], []
+    for r in runs:
+        starts.append(len(evs) + 1)          # 1-based index of the run's Reset
+        evs.extend(r.events)
+    evs.append({"ev": "End"})
+    vlib.write_ndjson(path, evs)
+    res = vlib.tlc("TraceDriver", "TraceDriver", workers=1, env={"TRACE": path}, timeout=timeout, xss="64m", xmx="1g",
+                   extra=("-continue",))
+    os.unlink(path)
+    with _lock:
+        stats["tlc_runs"] += 1
+        stats["states"] += res.distinct
+        stats["generated"] += res.states
+        stats["wall"] += res.wall
+    out = res.out
+    if not re.search(r'<<"END", %d>>' % len(evs), out):
+        raise vlib.MachineryError("TLC did not reach the end of the trace file (%s):\n%s" % (tag, vlib._first_error(out)))
+    verdicts = [Verdict(True) for _ in runs]
+    # rejected runs
+    for m in re.finditer(r'<<"STUCK", (\d+)>>', out):
+        idx = int(m.group(1))
+        j = _which_run(starts, idx)
+        if verdicts[j].ok:
+            verdicts[j] = Verdict(False, "stuck", "NotABehaviour", idx - starts[j], evs[idx - 1], evs[idx - 2] if idx >= 2 else None,
+                                  "no Driver action matches event %d of the run: %s\nafter: %s" %
+                                  (idx - starts[j], json.dumps(evs[idx - 1]), json.dumps(evs[idx - 2] if idx >= 2 else None)))
+    # invariant violations: each error block ends with the violating state (ALIAS shows l)
+    blocks = re.split(r"Error: Invariant (\S+) is violated\.", out)
+    for bi in range(1, len(blocks), 2):
+        name, body = blocks[bi], blocks[bi + 1]
+        ls = re.findall(r"^/\\ l = (\d+)", body, re.M)
+        if not ls:
+            raise vlib.MachineryError("TLC reported %s without a trace:\n%s" % (name, body[:2000]))
+        idx = int(ls[-1]) - 1               # the event whose step produced the violating state
+        j = _which_run(starts, idx)
+        if verdicts[j].ok:
+            verdicts[j] = Verdict(False, "invariant", name, idx - starts[j], evs[idx - 1], evs[idx - 2] if idx >= 2 else None,
+                                  "Invariant %s is violated in the state reached by event %d of the run: %s" %
+                                  (name, idx - starts[j], json.dumps(evs[idx - 1])))
+    other = [e for e in re.findall(r"^Error: (.*)$", out, re.M)
+             if not e.startswith("Invariant ") and not e.startswith("The behavior up to this point")]
+    if other:
+        raise vlib.MachineryError("TLC trace validation failed (%s): %s" % (tag, vlib._first_error(out)))
     return verdicts
 
 
